@@ -406,7 +406,7 @@ def shards(tier: str, seed: int):
     out = [["wf", k] for k in WF_KINDS]
     out += [["prefix", k] for k in WF_KINDS]
     out += [["subst", k] for k in WF_KINDS]
-    out += [["noend"], ["gk"], ["manyunknown"]]
+    out += [["noend"], ["gk"], ["manyunknown"], ["mutate-repack"]]
     out += [["mixed", part] for part in range(4)]
     out += [["short", name] for name in ("PDU", "SecTrailer", "VerificationTrailer", "Command", "Floor", "EptMap", "EptMapResult", "GetKey.unpack", "GetKey.unpack_response")]
     return out
@@ -550,6 +550,82 @@ def run_shard(shard, tier, seed, acc) -> None:
         acc.transitions += n * 3
         acc.outcome("mixed-sequences-ok", n)
         acc.sample({"cross-codec sequence": [reps[0][0], reps[-1][0], reps[len(reps) // 2][0]], "representatives": len(reps)})
+    elif what == "mutate-repack":
+        # a message object is packed, then changed in place (its lists are ordinary mutable lists), then packed again: the second encoding is
+        # the encoding of the message as it is NOW (bind / alter_context: transfer syntaxes appended, replaced, removed; ept_map result: a tower
+        # appended, a floor replaced)
+        R, E, G = M()
+        n = 0
+        for kind_, pt, cls in (("bind", rpc.BIND, R.Bind), ("alter_context", rpc.ALTER_CONTEXT, R.AlterContext)):
+            for nctx in (1, 2, 3):
+                for mut in ("append", "replace", "clear", "append-context", "swap-contexts"):
+                    ctxs = [(100 * i + 1, (SYNS[i % 4][0], 1, i), ((SYNS[i % 4][0], 1, 0),)) for i in range(nctx)]
+                    obj = cls(header=hdr(R, pt, 3, 0, 0), sec_trailer=None, max_xmit_frag=4280, max_recv_frag=5840, assoc_group=0xA1B2C3,
+                              contexts=[R.ContextElement(context_id=c, abstract_syntax=syn(R, a), transfer_syntaxes=[syn(R, x) for x in ts]) for c, a, ts in ctxs])
+                    case = ["mutate-repack", kind_, nctx, mut]
+                    try:
+                        first = bytes(obj.pack())
+                        ref1 = rpc.enc_bind_like(pt, 3, 7, ctxs, None, 4280, 5840, 0xA1B2C3)
+                        extra = (SYNS[3][0], 2, 9)
+                        if mut == "append":
+                            obj.contexts[0].transfer_syntaxes.append(syn(R, extra))
+                            ctxs[0] = (ctxs[0][0], ctxs[0][1], ctxs[0][2] + (extra,))
+                        elif mut == "replace":
+                            obj.contexts[-1].transfer_syntaxes[0] = syn(R, extra)
+                            ctxs[-1] = (ctxs[-1][0], ctxs[-1][1], (extra,))
+                        elif mut == "clear":
+                            obj.contexts[0].transfer_syntaxes.clear()
+                            ctxs[0] = (ctxs[0][0], ctxs[0][1], ())
+                        elif mut == "append-context":
+                            obj.contexts.append(R.ContextElement(context_id=999, abstract_syntax=syn(R, extra), transfer_syntaxes=[syn(R, extra)]))
+                            ctxs.append((999, extra, (extra,)))
+                        else:
+                            obj.contexts.reverse()
+                            ctxs.reverse()
+                        second = bytes(obj.pack())
+                        ref2 = rpc.enc_bind_like(pt, 3, 7, ctxs, None, 4280, 5840, 0xA1B2C3)
+                    except Exception as e:  # noqa: BLE001
+                        acc.violate(f"mutate-repack.exc.{type(e).__name__}", case, {"exc": repr(e)})
+                        continue
+                    n += 1
+                    # (frag_len in the header is the caller's business: compare everything behind the 16-octet header)
+                    if first[16:] != ref1[16:] or second[16:] != ref2[16:]:
+                        acc.violate("mutate-repack.bytes", case, {"first_ok": first[16:] == ref1[16:], "second": second[16:].hex()[:160], "expected": ref2[16:].hex()[:160]})
+                    else:
+                        acc.outcome("mutate-repack-ok")
+        tA = [repm.uuid_floor(rpc.ISD_KEY), repm.tcp_floor(49664), repm.ip_floor(0)]
+        tB = [repm.uuid_floor(rpc.ISD_KEY), repm.tcp_floor(49665), repm.ip_floor(1)]
+        for mut in ("append-tower", "replace-floor", "pop"):
+            lst = [list(tA), list(tB)]
+            obj = E.EptMapResult(entry_handle=None, towers=[[mk_floor(E, f) for f in tw] for tw in lst], status=0)
+            case = ["mutate-repack", "ept_map_result", 2, mut]
+            try:
+                first = bytes(obj.pack())
+                ref1 = repm.ept_map_response(lst, 0, b"\x00" * 20)
+                if mut == "append-tower":
+                    obj.towers.append([mk_floor(E, f) for f in tA])
+                    lst.append(list(tA))
+                elif mut == "replace-floor":
+                    obj.towers[0][1] = mk_floor(E, repm.tcp_floor(135))
+                    lst[0][1] = repm.tcp_floor(135)
+                else:
+                    obj.towers.pop(0)
+                    lst.pop(0)
+                second = bytes(obj.pack())
+                ref2 = repm.ept_map_response(lst, 0, b"\x00" * 20)
+            except Exception as e:  # noqa: BLE001
+                acc.violate(f"mutate-repack.exc.{type(e).__name__}", case, {"exc": repr(e)})
+                continue
+            n += 1
+            if first != ref1 or second != ref2:
+                acc.violate("mutate-repack.bytes", case, {"first_ok": first == ref1, "second": second.hex()[:160], "expected": ref2.hex()[:160]})
+            else:
+                acc.outcome("mutate-repack-ok")
+        acc.ev(n)
+        acc.nt_counted(n)
+        acc.states += n
+        acc.transitions += 2 * n
+        acc.sample({"packed, changed in place, packed again": ["bind", "alter_context", "ept_map_result"]})
     elif what == "manyunknown":
         # one process decodes MANY distinct values that the library has no name for (verification-trailer command types over the 14-bit
         # space, tower floor protocol ids over all 8 bits), then the first ones again: the n-th unknown value is handled like the first
@@ -651,6 +727,13 @@ def replay(case, seed, acc) -> None:
         v, det, _, _ = case_term(case[1], eps[case[1]], bytes.fromhex(case[2]))
         if v:
             acc.violate(v, case, det)
+    elif what == "mutate-repack":
+        run_shard(["mutate-repack"], "quick", seed, acc)
+        for kk in list(acc.violations):
+            acc.violations[kk] = [e for e in acc.violations[kk] if e["case"] == case]
+            if not acc.violations[kk]:
+                del acc.violations[kk]
+        acc.violation_count = sum(len(x) for x in acc.violations.values())
     elif what == "manyunknown":
         run_shard(["manyunknown"], "quick", seed, acc)
     elif what == "noend":
